@@ -96,6 +96,35 @@ def twin_graphs(rng):
         return rn
     return build(False), build(True)
 
+def short_block_graph(rng):
+    """a town of very short blocks (a second or so each) with a faster, longer bypass, and no travel_time attribute: whole-second
+    rounding of link times would change which way is fastest"""
+    n = rng.randint(4, 5)
+    g = nx.MultiDiGraph()
+    step = 0.00022
+    for i in range(n):
+        for j in range(n):
+            g.add_node(i * n + j + 1, y=39.74 + i * step, x=-104.99 + j * step * 1.3)
+    def add(u, v, length, speed):
+        g.add_edge(u, v, length=length, speed_kmph=speed)
+    for i in range(n):
+        for j in range(n):
+            u = i * n + j + 1
+            if j + 1 < n:
+                L, sp = rng.choice([15.0, 19.0, 24.0, 31.0]), rng.choice([20.0, 36.0, 50.0])
+                add(u, u + 1, L, sp); add(u + 1, u, L, sp)
+            if i + 1 < n:
+                L, sp = rng.choice([15.0, 19.0, 24.0, 31.0]), rng.choice([20.0, 36.0, 50.0])
+                add(u, u + n, L, sp); add(u + n, u, L, sp)
+    # bypasses between far corners of rows
+    for i in range(n):
+        a, b = i * n + 1, i * n + n
+        add(a, b, 30.0 * n + rng.choice([10.0, 40.0]), 93.6); add(b, a, 30.0 * n + rng.choice([10.0, 40.0]), 93.6)
+    w = input_weights(g)
+    rn = OSMRoadNetwork(g)
+    rn._verif_input_weights = w
+    return rn
+
 def weights(rn):
     if getattr(rn, '_verif_input_weights', None) is not None:
         return dict(rn._verif_input_weights)
@@ -171,7 +200,7 @@ def check_route(rn, o, d, w, adj, dist_cache):
     if s not in dist_cache:
         dist_cache[s] = dijkstra(w, adj, s)
     best = dist_cache[s][t]
-    if tt > best:
+    if tt > best * (1 + Fraction(1, 10**9)):      # (weights the network derives itself are doubles: equal up to rounding is equal)
         viol.append(('C14', 'route_slower_than_fastest_path', dict(det, travel_time_s=float(tt), fastest_s=float(best), excess_pct=round(float((tt - best) / best * 100), 2) if best else None, nodes=len(nodes))))
     return viol, (s, t, nodes, tt)
 
@@ -220,6 +249,8 @@ def engine(res, spec, tier, seed, extended=False):
         nets.append((f'generated{k}', gen_graph(random.Random(seed * 31337 + k))))
     # twins: the same junction ids and street plan twice, first with slow streets everywhere, then with fast arterials among them.
     # Whatever a network object remembers (about junction ids, pairs, links) must not leak into another network.
+    for k in range(1 if tier == 'quick' else 6):
+        nets.append((f'shortblocks{k}', short_block_graph(random.Random(f'short|{seed}|{k}'))))
     for k in range(1 if tier == 'quick' else 6):
         a, b = twin_graphs(random.Random(f'twins|{seed}|{k}'))
         nets.append((f'twin{k}_slow', a)); nets.append((f'twin{k}_fast', b))
